@@ -136,7 +136,7 @@ func init() {
 		Split: append(append([]SplitDim{}, layoutSplit...), SplitDim{"roll", two}, SplitDim{"calls", same("calls")}, SplitDim{"view", func(map[string]int) int { return 3 }}), Reach: []string{"session", "equal-run"}}
 	addProp(&Prop{ID: "C10", DesignRef: "DESIGN.md §4 C10", Runs: []HarnessRun{idxTime, qTime, noIndex, session},
 		Assumptions: []string{"message times never decrease with offset and are not before 1970-01-01 (pre-1970 times: see known finding C10-negative-times)", "query times at 1 microsecond granularity"}})
-	qKey := HarnessRun{Name: "h_log.QueryKey", Quick: B{"segs": 2, "recs": 2, "vers": 3, "profs": 2, "keylen": 1}, Thorough: B{"segs": 3, "recs": 2, "vers": 4, "profs": 2, "keylen": 1}, Split: layoutSplit,
+	qKey := HarnessRun{Name: "h_log.QueryKey", Quick: B{"segs": 2, "recs": 2, "vers": 3, "profs": 2, "keylen": 1}, Thorough: B{"segs": 3, "recs": 2, "maxmsgs": 4, "vers": 3, "profs": 2, "keylen": 1}, Split: layoutSplit,
 		Reach: []string{"index-rebuilt", "uf:hash-collision", "absent", "present", "empty-key-present"}}
 	qKeyCursor := HarnessRun{Name: "h_log.QueryKey", Quick: B{"segs": 2, "recs": 2, "maxmsgs": 3, "vers": 1, "profs": 1, "keylen": 1, "cursor_check": 1}, Thorough: B{"segs": 2, "recs": 2, "vers": 2, "profs": 2, "keylen": 1, "cursor_check": 1}, Split: layoutSplit,
 		Reach: []string{"cursor-before-first-segment"}}
@@ -308,11 +308,13 @@ func init() {
 	addProp(&Prop{ID: "C18", DesignRef: "DESIGN.md §4 C18, §10.6", Runs: []HarnessRun{
 		{Name: "h_sync.NotifyImmediate", Quick: B{"sched_replay": 1}, Reach: []string{"below", "after-close"}},
 		{Name: "h_sync.BlockingImmediate", Quick: B{"sched_replay": 1}, Reach: []string{"immediate"}},
-		{Name: "h_sync.NotifyWake", Quick: B{"waiters": 1, "publishers": 2, "preemptions": 1, "sched_replay": 1}, Thorough: B{"waiters": 2, "publishers": 2, "preemptions": 1, "sched_replay": 1},
+		{Name: "h_sync.NotifyWake", Quick: B{"waiters": 1, "publishers": 2, "preemptions": 1, "sched_replay": 1},
 			Split: []SplitDim{{"waiters", same("waiters")}, {"publishers", same("publishers")}, {"close", two}}, Reach: []string{"still-parked", "returned"}},
 		{Name: "h_sync.NotifyWake", Quick: B{"quick_skip": 1}, Thorough: B{"waiters": 1, "publishers": 1, "preemptions": 2, "sched_replay": 1},
 			Split: []SplitDim{{"close", two}}, Reach: []string{"returned"}},
-		{Name: "h_sync.BlockingWake", Quick: B{"waiters": 1, "publishers": 1, "preemptions": 1, "sched_replay": 1}, Thorough: B{"waiters": 2, "publishers": 1, "preemptions": 1, "sched_replay": 1},
+		{Name: "h_sync.NotifyWake", Quick: B{"quick_skip": 1}, Thorough: B{"waiters": 2, "publishers": 1, "preemptions": 1, "sched_replay": 1},
+			Split: []SplitDim{{"waiters", same("waiters")}, {"close", two}}, Reach: []string{"returned"}},
+		{Name: "h_sync.BlockingWake", Quick: B{"waiters": 1, "publishers": 1, "preemptions": 1, "sched_replay": 1},
 			Split: []SplitDim{{"waiters", same("waiters")}, {"publishers", same("publishers")}, {"close", two}, {"cancel", two}, {"woff", three}},
 			Reach: []string{"still-parked", "returned", "cancelled", "woken-below-offset"}},
 	}, Assumptions: []string{"sequential consistency; context switches only at visible operations (atomics, channel operations, select, mutex operations, goroutine start/exit)",
